@@ -26,26 +26,27 @@ type LoopSpec struct {
 }
 
 type FuncContract struct {
-	Key      string // in-repo: "Name" / "Recv.Name" / "Outer$1"; extern: full ssa name e.g. "time.Now", "(*pkg.T).M"; interface method: "iface pkgpath.I.M"
-	PkgPath  string // package the contract file belongs to ("" for lib)
-	Extern   bool
-	Requires []*Clause
-	Assumes  []*Clause // stated assumptions on the function's inputs that call sites are NOT asked to prove (listed in the evidence)
-	Ensures  []*Clause
-	Modifies []Expr
-	ModSrc   []string
-	Loops    map[int]*LoopSpec
-	Safety   map[string]bool // claimed safety obligation kinds
-	Tags     []string        // properties for safety obligations / frame
-	Replay   string
-	Inline   bool              // "inline": body inlined at call sites even though loop invariants are given
-	Params   []string          // optional explicit parameter names for externs (positional)
-	Locals   map[string]string // name -> type of the locals mentioned by loop invariants, as pinned by `locals`
-	File     string
-	Line     int
-	NoVerify bool     // extern: body not verified
-	Fresh    []string // results declared fresh (newly allocated)
-	Devirt   string   // interface method: calls are resolved to this concrete type's method (pkg.Type), with an obligation that the dynamic type is that type
+	Key         string // in-repo: "Name" / "Recv.Name" / "Outer$1"; extern: full ssa name e.g. "time.Now", "(*pkg.T).M"; interface method: "iface pkgpath.I.M"
+	PkgPath     string // package the contract file belongs to ("" for lib)
+	Extern      bool
+	Requires    []*Clause
+	Assumes     []*Clause // stated assumptions on the function's inputs that call sites are NOT asked to prove (listed in the evidence)
+	Ensures     []*Clause
+	Modifies    []Expr
+	ModSrc      []string
+	Loops       map[int]*LoopSpec
+	Safety      map[string]bool // claimed safety obligation kinds
+	Tags        []string        // properties for safety obligations / frame
+	Replay      string
+	Inline      bool              // "inline": body inlined at call sites even though loop invariants are given
+	Params      []string          // optional explicit parameter names for externs (positional)
+	Locals      map[string]string // name -> type of the locals mentioned by loop invariants, as pinned by `locals`
+	LocalsOrder []string          // the same names, in declaration order
+	File        string
+	Line        int
+	NoVerify    bool     // extern: body not verified
+	Fresh       []string // results declared fresh (newly allocated)
+	Devirt      string   // interface method: calls are resolved to this concrete type's method (pkg.Type), with an obligation that the dynamic type is that type
 }
 
 type PureFunc struct {
@@ -268,6 +269,7 @@ func parseContractFile(path, pkgPath string, stripPrefix bool) (*ContractFile, e
 			for _, part := range strings.Split(it.text, ";") {
 				if i := strings.Index(part, ":"); i > 0 {
 					cur.Locals[strings.TrimSpace(part[:i])] = strings.TrimSpace(part[i+1:])
+					cur.LocalsOrder = append(cur.LocalsOrder, strings.TrimSpace(part[:i]))
 				}
 			}
 		case "fresh":
